@@ -196,6 +196,7 @@ func (c *MustacheTemplate) evaluateTokens(tokens []*mparsers.MustacheToken, vari
 	builder := strings.Builder{}
 
 	for _, token := range tokens {
+		verifRenderStep(variables, token)
 		switch token.Type() {
 		case mparsers.TokenComment:
 			// Skip
